@@ -470,6 +470,47 @@ def k3_result_dir(actor: int, xsel: int) -> bool:
     return ob.post(ok)
 
 
+# ----------------------------------------------------------------------------- K4: cases run as part of a suite
+
+# (name, lines of the case file, expected status in the progress output, is a sandbox created?)
+SUITE_CASE_ENDINGS = (
+    ('pass', '[act]\n$ echo act\n[assert]\nexit-code == 0\n', 'PASS', True),
+    ('fail', '[act]\n$ echo act\n[assert]\nexit-code == 1\n', 'FAIL', True),
+    ('hard-error-in-setup', '[setup]\ncd no-such-dir\n[act]\n$ echo act\n', 'HARD_ERROR', True),
+    ('hard-error-in-cleanup', '[act]\n$ echo act\n[cleanup]\ncd no-such-dir\n', 'HARD_ERROR', True),
+    ('validation-error', '[setup]\ncopy -rel-home no-such-file.txt\n[act]\n$ echo act\n', 'VALIDATION_ERROR', False),
+    ('changes-directory-and-leaves-files', "[setup]\ndir d\ncd d\nfile f.txt = 'x'\n[act]\n$ echo act\n", 'PASS', True),
+)
+
+
+def _pre_k4(e1: int, e2: int, e3: int) -> bool:
+    n = len(SUITE_CASE_ENDINGS)
+    return 0 <= e1 < n and 0 <= e2 < n and 0 <= e3 < n
+
+
+def k4_suite_sandboxes(e1: int, e2: int, e3: int) -> bool:
+    """
+    pre: _pre_k4(e1, e2, e3)
+    post: _
+    """
+    from harness import C03
+    endings = [ob.pick(SUITE_CASE_ENDINGS, e) for e in (e1, e2, e3)]
+    files = {'the.suite': '[cases]\nc1.case\nc2.case\nc3.case\n'}
+    for i, e in enumerate(endings):
+        files['c%d.case' % (i + 1)] = e[1]
+    with ob.untraced():   # every selector is concrete by now
+        r = C03.run_suite(files, 'the.suite')
+    if r['exc'] is not None:
+        return ob.post(False)
+    ok = all(r['statuses'].get('c%d.case' % (i + 1)) == e[2] for i, e in enumerate(endings))
+    n_sandboxes = len([e for e in endings if e[3]])
+    if ob.case().get('oracle_bug'):
+        n_sandboxes = 3
+    # one fresh sandbox per case that gets past validation, every one removed when its case has ended, cwd as before
+    ok = ok and r['sandboxes'] == n_sandboxes and not any(r['sandboxes_left']) and r['cwd_restored']
+    return ob.post(ok)
+
+
 def obligations(tier: str) -> List[Ob]:
     n, cells, cat = _fault_catalogue()
     obs = []
@@ -523,6 +564,18 @@ def obligations(tier: str) -> List[Ob]:
             entry='full_execution.execution.execute(..., is_keep_sandbox, TestCase)',
             outside=('read-only DIRECTORIES planted by a test (POSIX refuses removal; the property speaks of files)',
                      'crashes of the Python process itself', 'the stdout line that reports the kept sandbox (C02)')))
+    obs.append(Ob(name='K4:suite-run', fn='k4_suite_sandboxes', case={}, kernel='K4', selector=True,
+                  bound='`exactly suite` on a suite of 3 cases, each ending as one of %s: one fresh sandbox per case that gets past '
+                        'validation, every sandbox removed, the current directory of the process as before'
+                        % [e[0] for e in SUITE_CASE_ENDINGS],
+                  timeout=900, real=REAL + ('exactly_lib.test_suite.processing.SuitesExecutor',
+                                            'exactly_lib.processing.processors.Configuration',
+                                            'exactly_lib.cli.main_program.MainProgram.execute'),
+                  stubs=('subprocess module at process_executor: recording stub that starts nothing', 'counting sandbox resolver',
+                         'in-memory stdout/stderr', 'CrossHair tracing is suspended while the program runs on the concrete files'),
+                  entry='MainProgram.execute(["suite", FILE])'))
+    obs.append(Ob(name='K4:seeded-oracle-error', fn='k4_suite_sandboxes', case=dict(oracle_bug=True), kernel='K4', selector=True,
+                  bound='seeded: a sandbox is expected also for a case that fails validation', timeout=600, expect=ob.REFUTE))
     obs.append(Ob(name='K1:seeded-oracle-error', fn='k1_lifecycle',
                   case=dict(fault=0, oracle_bug='never-removed', tier=tier), kernel='K1',
                   bound='seeded: oracle expects the sandbox to be kept always', timeout=600, expect=ob.REFUTE))
